@@ -29,6 +29,7 @@ type zOp struct {
 	V   int    `json:"v"`
 	Eph bool   `json:"eph"`
 	Dt  int    `json:"dt_ms"`
+	Lost bool  `json:"lost,omitempty"` // create: the connection is cut when the first create request arrives (not applied); the client re-sends it
 }
 type zIn struct {
 	Clients int   `json:"clients"`
@@ -42,6 +43,7 @@ type zOut struct {
 	Owner []int64 // session id per client at the end
 	Notes []string
 	Notes2 []string
+	Skipped map[int]bool // ops whose request was lost and NOT re-sent (the client had already noticed the disconnect): no effect
 }
 
 var zSegs = map[string]int{"a": 1, "b": 2, "c": 3, "lock": 9, "m": 8}
@@ -145,10 +147,37 @@ func zRun(t *testing.T, in zIn) zOut {
 		}
 		switch o.Op {
 		case "create":
+			if o.Lost {
+				// the TCP connection is cut when the create request arrives; nothing is applied; the session survives
+				sid := z.conn.SessionID()
+				var once sync.Once
+				srv.SetHook(func(ev vk.ZKRequestEvent) vk.ZKAction {
+					act := vk.ZKProceed
+					if ev.Session == sid && ev.Op == vk.ZKOpCreate {
+						once.Do(func() { act = vk.ZKDropBeforeApply })
+					}
+					return act
+				})
+			}
 			if o.Eph {
 				res = zErrGal(z.CreateEphemeral(o.P, o.V))
 			} else {
 				res = zErrGal(z.Create(o.P, o.V))
+			}
+			if o.Lost {
+				srv.SetHook(nil)
+				for i := 0; i < 100 && !z.IsConnected(); i++ {
+					time.Sleep(20 * time.Millisecond)
+				}
+				time.Sleep(60 * time.Millisecond)
+				if res == "ZErr" {
+					// the client had already seen the disconnect and did not re-send: the operation failed without effect
+					if out.Skipped == nil {
+						out.Skipped = map[int]bool{}
+					}
+					out.Skipped[len(out.Res)] = true
+					res = "ZOk"
+				}
 			}
 		case "set":
 			// expectation from the server's truth: every ancestor missing or plain, the key itself missing or of a compatible kind
@@ -261,6 +290,101 @@ func zRun(t *testing.T, in zIn) zOut {
 			if strings.Trim(o.P, "/") == "lock" {
 				told[o.V], told[o.C] = r2, r1
 			}
+		case "lostrace":
+			// c's lock create is lost in transit (connection cut, not applied); c2 takes the lock in the gap; c re-sends.
+			// The outcome equals the sequential history [c2 acquires; c acquires].
+			z2 := cl[o.V-1]
+			full := z.buildFullPath(o.P)
+			r2 := false
+			if _, busy := srv.Dump()[full]; busy || o.V == o.C {
+				r2 = z2.AcquireLock(o.P)
+			} else {
+				sid := z.conn.SessionID()
+				var once sync.Once
+				srv.SetHook(func(ev vk.ZKRequestEvent) vk.ZKAction {
+					act := vk.ZKProceed
+					if ev.Session == sid && ev.Op == vk.ZKOpCreate && ev.Path == full {
+						once.Do(func() {
+							r2 = z2.AcquireLock(o.P)
+							act = vk.ZKDropBeforeApply
+						})
+					}
+					return act
+				})
+			}
+			r1 := z.AcquireLock(o.P)
+			srv.SetHook(nil)
+			for i := 0; i < 100 && !z.IsConnected(); i++ {
+				time.Sleep(20 * time.Millisecond)
+			}
+			time.Sleep(60 * time.Millisecond)
+			if r1 {
+				if n, exists := srv.Dump()[full]; !exists || n.EphemeralOwner != z.conn.SessionID() {
+					out.Notes = append(out.Notes, fmt.Sprintf("op %d: client %d is told it holds %s after its create was lost in transit, but the lock node is owned by session %x (the client's session %x)", len(out.Res), o.C, full, n.EphemeralOwner, z.conn.SessionID()))
+				}
+			}
+			out.Res = append(out.Res, "(ZBool "+vk.B(r2)+")")
+			res = "(ZBool " + vk.B(r1) + ")"
+			if strings.Trim(o.P, "/") == "lock" {
+				told[o.V], told[o.C] = r2, r1
+			}
+		case "cutoff":
+			// c is cut off from the coordination service (its connection is dropped, reconnects are refused), the
+			// server expires its session, c2 asks for the lock, then c - still cut off - asks too.  c must not be told
+			// that it holds the lock.  In the machine: [expire c; c2 acquires; c acquires].
+			z2 := cl[o.V-1]
+			sid := z.conn.SessionID()
+			if o.V == o.C {
+				// nobody else asks in between: a plain expiry followed by a request over the new session
+				srv.ExpireSession(sid)
+				fzkWaitNewSession(t, z, sid)
+				time.Sleep(60 * time.Millisecond)
+				r := z.AcquireLock(o.P)
+				out.Res = append(out.Res, "ZOk", "ZOk")
+				res = "(ZBool " + vk.B(r) + ")"
+				told[o.C] = false
+				if strings.Trim(o.P, "/") == "lock" {
+					told[o.C] = r
+				}
+				break
+			}
+			srv.SetPartition(sid, true)
+			time.Sleep(120 * time.Millisecond) // the client notices the connection loss
+			srv.ExpireSession(sid)
+			r2 := false
+			if o.V != o.C {
+				r2 = z2.AcquireLock(o.P)
+			}
+			ch := make(chan bool, 1)
+			go func() { ch <- z.AcquireLock(o.P) }()
+			r1, answered := false, false
+			select {
+			case r1 = <-ch:
+				answered = true
+			case <-time.After(500 * time.Millisecond):
+			}
+			srv.SetPartition(sid, false)
+			if !answered {
+				r1 = <-ch
+			}
+			fzkWaitNewSession(t, z, sid)
+			time.Sleep(60 * time.Millisecond)
+			if r1 && answered {
+				out.Notes = append(out.Notes, fmt.Sprintf("op %d: client %d, cut off and with its session expired, is told it holds %s", len(out.Res), o.C, o.P))
+			}
+			if o.V != o.C {
+				out.Res = append(out.Res, "ZOk", "(ZBool "+vk.B(r2)+")")
+			} else {
+				out.Res = append(out.Res, "ZOk", "ZOk")
+			}
+			res = "(ZBool " + vk.B(r1) + ")"
+			told[o.C] = false
+			if strings.Trim(o.P, "/") == "lock" {
+				if o.V != o.C {
+					told[o.V] = r2
+				}
+				told[o.C] = r1
+			}
 		case "release":
 			z.ReleaseLock(o.P)
 			if strings.Trim(o.P, "/") == "lock" {
@@ -282,8 +406,11 @@ func zRun(t *testing.T, in zIn) zOut {
 		}
 		out.Res = append(out.Res, res)
 		out.Told = append(out.Told, snapshotTold())
-		if o.Op == "race" {
+		if o.Op == "race" || o.Op == "lostrace" {
 			out.Told = append(out.Told, snapshotTold())
+		}
+		if o.Op == "cutoff" {
+			out.Told = append(out.Told, snapshotTold(), snapshotTold())
 		}
 	}
 	out.Dump = srv.Dump()
@@ -355,10 +482,26 @@ func zGen(o *vk.Out, lockHeavy bool) zIn {
 		case k == 15:
 			if in.Clients > 1 {
 				c2 := 1 + r.Intn(in.Clients)
-				in.Ops = append(in.Ops, zOp{Op: "race", C: c, V: c2, P: zPaths(r, true)})
+				in.Ops = append(in.Ops, zOp{Op: []string{"race", "lostrace", "cutoff"}[r.Intn(3)], C: c, V: c2, P: zPaths(r, true)})
 			}
 		default:
 			in.Ops = append(in.Ops, zOp{Op: "get", C: c, P: zPaths(r, false)})
+		}
+	}
+	if !lockHeavy {
+		// a create whose request is lost in transit and re-sent - of a key somebody created before (must fail with
+		// 'exists') and of fresh keys
+		var created []zOp
+		for _, o := range in.Ops {
+			if o.Op == "create" || o.Op == "set" {
+				created = append(created, o)
+			}
+		}
+		for k := 0; k < 2 && len(created) > 0; k++ {
+			src := created[r.Intn(len(created))]
+			at := r.Intn(len(in.Ops) + 1)
+			lost := zOp{Op: "create", C: 1 + r.Intn(in.Clients), P: src.P, V: 60 + r.Intn(9), Eph: r.Intn(4) == 0, Lost: true}
+			in.Ops = append(in.Ops[:at], append([]zOp{lost}, in.Ops[at:]...)...)
 		}
 	}
 	if !lockHeavy && in.Clients > 1 && r.Intn(3) == 0 {
@@ -382,12 +525,28 @@ func zCase(in zIn, out zOut) string {
 		cs = append(cs, fmt.Sprintf("%d%%N", i))
 	}
 	ops := []string{}
+	ri := 0
 	for _, o := range in.Ops {
-		if o.Op == "race" {
+		if o.Op == "race" || o.Op == "lostrace" {
 			ops = append(ops, zOpGal(zOp{Op: "acquire", C: o.V, P: o.P}), zOpGal(zOp{Op: "acquire", C: o.C, P: o.P}))
+			ri += 2
 			continue
 		}
-		ops = append(ops, zOpGal(o))
+		if o.Op == "cutoff" {
+			second := zOpGal(zOp{Op: "acquire", C: o.V, P: o.P})
+			if o.V == o.C {
+				second = "(OAdvance 0)"
+			}
+			ops = append(ops, zOpGal(zOp{Op: "expire", C: o.C}), second, zOpGal(zOp{Op: "acquire", C: o.C, P: o.P}))
+			ri += 3
+			continue
+		}
+		if out.Skipped[ri] {
+			ops = append(ops, "(OAdvance 0)")
+		} else {
+			ops = append(ops, zOpGal(o))
+		}
+		ri++
 	}
 	return vk.T(vk.Z(int64(in.TTL)), vk.L(cs), vk.L(ops), vk.L(out.Res))
 }
